@@ -19,7 +19,7 @@ RULE = ("seven full products over projection x sky location x image shape (squar
         "17 position classes x 16 attribute rotations, and for each catalogue all non-empty subsets, all set partitions of "
         "every subset and all orderings; 'loop' blind finder -> catalogue file -> make_residual on 1-2 isolated sources "
         "x size x PA x sign x sub-pixel phase {on a pixel, between four pixels} x table format; 'addsub' add-then-subtract through files; 'mask' 1-2 positive sources x "
-        "frac/sigma thresholds; 'colmap' all 64 subsets of the six renamable columns x table format.  The expected image "
+        "frac/sigma thresholds; 'colmap' all 64 subsets of the six renamable columns x table format, subtract and three mask modes; 'cli' the AeRes command line x mode x renamed columns x format against the API.  The expected image "
         "is rendered by an independent sky-plane Gaussian model on an independent WCS.  non-trivial = at least one source "
         "centred on the image (additivity: at least two); distinct = distinct case")
 ASSUMPTIONS = ["the expected model is rendered by mc/oracles/skygauss.py (gnomonic offsets about the source, PA East of North, "
